@@ -233,7 +233,12 @@ type solverSpec struct {
 }
 
 var solvers = []solverSpec{
-	{"z3-new", func(f string, s int) []string { return []string{"z3-new", fmt.Sprintf("-T:%d", s), f} }},
+	{"z3-new", func(f string, s int) []string {
+		if s == 0 {
+			return []string{"z3-new", "-t:700", "-T:2", f} // vacuity probe: short soft timeout
+		}
+		return []string{"z3-new", fmt.Sprintf("-T:%d", s), f}
+	}},
 	{"z3", func(f string, s int) []string { return []string{"z3", fmt.Sprintf("-T:%d", s), f} }},
 	{"cvc5", func(f string, s int) []string { return []string{"cvc5", fmt.Sprintf("--tlimit=%d", s*1000), f} }},
 }
@@ -249,7 +254,7 @@ type solveOut struct {
 func runSolver(ctx context.Context, sp solverSpec, file string, secs int) solveOut {
 	t0 := time.Now()
 	argv := sp.argv(file, secs)
-	cctx, cancel := context.WithTimeout(ctx, time.Duration(secs+2)*time.Second)
+	cctx, cancel := context.WithTimeout(ctx, time.Duration(secs+3)*time.Second)
 	defer cancel()
 	cmd := exec.CommandContext(cctx, argv[0], argv[1:]...)
 	var buf bytes.Buffer
@@ -333,7 +338,7 @@ func decide(o *oblig, file string, opt dischargeOpts) {
 	ctx := context.Background()
 	if o.wantSat {
 		// vacuity / cover: anything but unsat is fine; quantified theories rarely give sat, so keep it short
-		so := runSolver(ctx, solvers[0], file, 3)
+		so := runSolver(ctx, solvers[0], file, 0)
 		o.secs, o.result, o.solver = so.secs, so.result, so.solver
 		if so.result == "error" {
 			o.model = firstLines(so.raw, 5)
